@@ -32,7 +32,8 @@ ASSUMPTIONS = [
 FLOORS = {'parses': 3000, 'delimiters_in_strings': 14,
           'parses_with_defined_names': 500,
           'parses_on_reused_parser': 3000, 'rejected_formulas_fed': 50,
-          'long_formula_parses': 12, 'tokenize_range_calls': 20}
+          'long_formula_parses': 12, 'tokenize_range_calls': 20,
+          'postfix_percent_group_parses': 200}
 ANCHOR_FUNCS = {
     'xlcalculator/parser.py': ['FormulaParser.parse',
                                'FormulaParser.shunting_yard',
@@ -676,6 +677,48 @@ def run(ctx):
             continue
         for variant in ({}, {'ws': True}):
             R.one(a, variant, 'zero-arg-block')
+
+    # ---- a percent sign after a parenthesised group or a call divides the whole
+    # group by 100: "G%" parses like "(G)*0.01", however groups are nested inside
+    # G -------------------------------------------------------------------------
+    if sh in (5, 6, 7) or thorough:
+        from xlcalculator import parser as _parser2
+        groups = ['(A1+1)', 'SUM(A1,2)', '((A1))', '(SUM(1,2)+3)',
+                  '(A1*(B1+C1))', '(1+(2))', 'SUM(1,MAX(2,3))',
+                  'IF(A1>0,ABS(A1),0)', '(A1-(B1-(C1-1)))',
+                  'MAX(MIN(1,2),MAX(3,MIN(4,5)))', '((1)+(2))',
+                  'SUM((A1),(B1+(C1)))', '(2*(3+(4*(5+6))))',
+                  'ROUND(SUM(A1:A3)/(1+(B1)),2)', '(-(A1+(B1)))']
+        shells = ['={g}%', '=5+{g}%', '={g}%*2', '=-{g}%', '=SUM(1,{g}%)',
+                  '={g}%+{g}%', '=IF({g}%>0,{g}%,0)']
+        for g in groups:
+            for shell in shells:
+                a = shell.format(g=g + '%')[0:0] or shell.replace(
+                    '{g}%', g + '%')
+                b = shell.replace('{g}%', '(' + g + '*0.01)')
+                ta = subject.outcome_of_raw(
+                    lambda: _parser2.FormulaParser().parse(a, {}))
+                tb = subject.outcome_of_raw(
+                    lambda: _parser2.FormulaParser().parse(b, {}))
+                ctx.event('parses', 2)
+                ctx.event('postfix_percent_group_parses')
+                ctx.case(('group-percent', g, shell))
+                if ta[0] != 'value' or tb[0] != 'value':
+                    if ta[0] != tb[0]:
+                        ctx.fail(f'parse({a!r}) -> {str(ta)[:120]}, but '
+                                 f'parse({b!r}) -> {str(tb)[:120]}',
+                                 {'formula': a, 'spelt_out': b},
+                                 monitor='parse-tree',
+                                 group='group-percent:raise')
+                    continue
+                ha, hb = fold_pct(canon_lib(ta[1])), fold_pct(canon_lib(tb[1]))
+                if not same_tree(ha, hb):
+                    ctx.fail(f'parse({a!r}) gave {repr(ha)[:260]}, the spelt-'
+                             f'out form {b!r} gives {repr(hb)[:260]}',
+                             {'formula': a, 'spelt_out': b,
+                              'tree': repr(ha)[:600],
+                              'spelt_out_tree': repr(hb)[:600]},
+                             monitor='parse-tree', group='group-percent:tree')
 
     # ---- sampled ASTs ---------------------------------------------------------
     count = (300000 if thorough else 6000) // n
